@@ -96,10 +96,28 @@ class _Rename(ast.NodeTransformer):
             return ast.copy_location(ast.Name(self.ren[n.id], n.ctx), n)
         return n
 
+    def _shadowed(self, names):
+        names = set(names)
+        return _Rename({k: v for k, v in self.ren.items() if k not in names},
+                       {k: v for k, v in self.subst.items() if k not in names})
+
+    def visit_Lambda(self, n):
+        a = n.args
+        ps = [x.arg for x in a.posonlyargs + a.args + a.kwonlyargs] + \
+             ([a.vararg.arg] if a.vararg else []) + ([a.kwarg.arg] if a.kwarg else [])
+        for d in list(a.defaults) + [d for d in a.kw_defaults if d is not None]:
+            self.visit(d)
+        n.body = self._shadowed(ps).visit(n.body)
+        return n
+
     def visit_FunctionDef(self, n):
         if n.name in self.ren:
             n.name = self.ren[n.name]
-        self.generic_visit(n)
+        a = n.args
+        ps = [x.arg for x in a.posonlyargs + a.args + a.kwonlyargs] + \
+             ([a.vararg.arg] if a.vararg else []) + ([a.kwarg.arg] if a.kwarg else [])
+        inner = self._shadowed(ps)
+        n.body = [inner.visit(x) for x in n.body]
         return n
 
     def visit_ExceptHandler(self, n):
